@@ -81,6 +81,7 @@ RECURSIVE AnyForm(_, _)
 AnyForm(sd, f) == sd.form = f \/ \E j \in 1..Len(sd.ch) : AnyForm(sd.ch[j][2], f)
 Witness == i > 0 /\ AnyForm(Dump(T, Dev), "md") /\ AnyForm(Dump(T, Dev), "tag")
            /\ RoundTrip(T, Dev) # T
+NotWitness == ~Witness
 
 ----------------------------------------------------------------------------
 \* the code as it is: what the harness compares the library with
@@ -95,7 +96,7 @@ Emit == i > 0 =>
                       smd   |-> SameMd(t, u),
                       st    |-> DumpStable(t, u, AsIs),
                       dx    |-> dx,
-                      fired |-> {d \in AsIs : Dump(t, AsIs \ {d}) # Dump(t, AsIs)},
+                      fired |-> Fired(t, AsIs),
                       ideal |-> RoundTrip(t, {}) = t]))
 
 =============================================================================
